@@ -43,9 +43,11 @@ func NewSession(c *Client, state SMState) (*Session, error) {
 	}
 
 	if s.err != nil {
-		// A server that answers with something else than its features will do so again. A connection that was
-		// cut before the features arrived will not: that is as transient as a cut before the stream header.
-		return nil, NewConnError(s.err, !connectionLost(s.err))
+		// A server that answers with another element than its features will do so again. A connection that was
+		// cut before the features arrived will not, and neither will a server that closes the stream instead
+		// (</stream:stream>, or <stream:error/>: it is going down or not up yet): as transient as a cut before
+		// the stream header, or as the same answer after the authentication.
+		return nil, NewConnError(s.err, !(connectionLost(s.err) || streamEnded(s.err)))
 	}
 
 	if !c.transport.IsSecure() {
@@ -56,7 +58,7 @@ func NewSession(c *Client, state SMState) (*Session, error) {
 		err := fmt.Errorf("failed to negotiate TLS session : %s", s.err)
 		// Permanent when it is a matter of policy (STARTTLS not offered or refused, certificate not accepted),
 		// not when the connection was cut while the client was waiting for <proceed/> or for the handshake.
-		return nil, NewConnError(err, !connectionLost(s.err))
+		return nil, NewConnError(err, !(connectionLost(s.err) || streamEnded(s.err)))
 	}
 
 	if s.TlsEnabled {
@@ -123,9 +125,30 @@ func (s *Session) decodeNext(v interface{}) error {
 	}
 	se, ok := t.(xml.StartElement)
 	if !ok {
-		return errors.New("stream closed by the server")
+		return errStreamClosed
+	}
+	if se.Name.Space == stanza.NSStream && se.Name.Local == "error" {
+		// The server ends the stream with an error (RFC 6120 4.9) where another element was awaited.
+		var serr stanza.StreamError
+		_ = s.transport.GetDecoder().DecodeElement(&serr, &se)
+		return streamErrorReply{condition: serr.Error.Local}
 	}
 	return s.transport.GetDecoder().DecodeElement(v, &se)
+}
+
+var errStreamClosed = errors.New("stream closed by the server")
+
+// streamErrorReply: the server has answered with <stream:error/> where an element of the negotiation was awaited.
+type streamErrorReply struct{ condition string }
+
+func (e streamErrorReply) Error() string { return "stream error from the server: " + e.condition }
+
+// streamEnded tells that the server itself has ended the stream, with or without an error: it is shutting down or
+// starting up, overloaded, ... The politeness of a server that says so is not to be answered by giving up for good
+// where the same moment met as a cut connection is retried.
+func streamEnded(err error) bool {
+	var serr streamErrorReply
+	return errors.Is(err, errStreamClosed) || errors.As(err, &serr)
 }
 
 func (s *Session) extractStreamFeatures() (f stanza.StreamFeatures) {
